@@ -47,6 +47,7 @@ class ItemSpec:
         self.after = []
         self.order = []
         self.region = None
+        self.d4 = []          # [("subst", a, b) | ("delete", text)]
 
 
 class FnSpec:
@@ -67,7 +68,7 @@ def parse_sidecar(path):
         line = raw.rstrip()
         s = line.strip()
         is_directive = (s.startswith("@") or s.startswith("item ") or s.startswith("use_item ") or s.startswith("region ")
-                        or s in ("keep_attrs", "selfmut", "literals")
+                        or s in ("keep_attrs", "selfmut", "literals") or s.startswith("subst ") or s.startswith("delete ")
                         or re.match(r"(fn|result|refpat) \w+$", s) is not None)
         if cur_site is not None and not is_directive:
             cur_site.append(raw)
@@ -122,6 +123,13 @@ def parse_sidecar(path):
             cur_site = None
             if " / fn " in p or p.strip().startswith("fn "):
                 cur_fn = cur_item.fns.setdefault("", FnSpec())
+        elif s.startswith("subst ") and cur_item is not None and " => " in s:
+            a_, _, b_ = s[6:].partition(" => ")
+            cur_item.d4.append(("subst", a_.strip(), b_.strip()))
+            cur_site = None
+        elif s.startswith("delete ") and cur_item is not None:
+            cur_item.d4.append(("delete", s[7:].strip()))
+            cur_site = None
         elif s == "keep_attrs":
             cur_item.keep_attrs = True
             cur_site = None
@@ -265,6 +273,24 @@ def instrument_fn(ftext, fspec, ed, base, rules, label):
             if not (-len(stmts) <= n < len(stmts)):
                 raise Undecided("%s: statement %d not found (%d statements)" % (label, n, len(stmts)))
             ed.insert(base + st[stmts[n][0]].start, take(key) + "\n")
+            continue
+        m = re.match(r"inner_before_call (\w+)(?: (\d+))?$", key)
+        if m:
+            # before the innermost statement (in the innermost block) containing the n-th call of NAME
+            want_n = int(m.group(2) or 0)
+            calls_ = [q for q in range(an.body_open + 1, an.body_close - 1)
+                      if rsx.is_id(st[q], m.group(1)) and rsx.is_p(st[q + 1], "(")]
+            if want_n >= len(calls_):
+                raise Undecided("%s: lost anchor: call %s #%d not found (fn has %d)" % (label, m.group(1), want_n, len(calls_)))
+            qc = calls_[want_n]
+            blk_open = max(q0 for q0 in range(an.body_open, qc) if rsx.is_p(st[q0], "{") and rsx.match_close(st, q0) > qc)
+            hit = None
+            for (s0, s1, _t) in an.statements(blk_open, rsx.match_close(st, blk_open)):
+                if s0 <= qc <= s1:
+                    hit = s0
+            if hit is None:
+                raise Undecided("%s: lost anchor: statement of call %s #%d" % (label, m.group(1), want_n))
+            ed.insert(base + st[hit].start, take(key) + "\n")
             continue
         m = re.match(r"(?:loop (\d+) )?before_call (\w+)(?: (\d+))?$", key)
         if m:
@@ -487,6 +513,28 @@ def build_unit(spec, repo=REPO):
             rsx.apply_rules(itext, spec["rules"], ed, regex_map=spec.get("regex_map"))
         except rsx.LexError as e:
             raise Undecided("%s: %s" % (label, e))
+        # D4 (future = its output): identifier substitutions and deletions named in the sidecar for this item
+        if it.d4:
+            toks_ = rsx.sig_tokens(rsx.lex(itext))
+            gone_ = []
+            for d in sorted(it.d4, key=lambda d_: d_[0] != "delete"):
+                if d[0] == "subst":
+                    hits_ = [t_ for t_ in toks_ if rsx.is_id(t_, d[1]) and not any(a_ <= t_.start < b_ for a_, b_ in gone_)]
+                    if not hits_:
+                        raise Undecided("%s: D4 subst %s: identifier not found" % (label, d[1]))
+                    for t_ in hits_:
+                        ed.replace(t_.start, t_.end, "D4", d[2])
+                else:
+                    want_ = [t_.text for t_ in rsx.sig_tokens(rsx.lex(d[1]))]
+                    found_ = False
+                    for i_ in range(len(toks_) - len(want_) + 1):
+                        if [t_.text for t_ in toks_[i_:i_ + len(want_)]] == want_:
+                            ed.replace(toks_[i_].start, toks_[i_ + len(want_) - 1].end, "D4", "")
+                            gone_.append((toks_[i_].start, toks_[i_ + len(want_) - 1].end))
+                            found_ = True
+                            break
+                    if not found_:
+                        raise Undecided("%s: D4 delete `%s`: tokens not found" % (label, d[1]))
         try:
             if item.kind == "fn":
                 fs = it.fns.get("") or FnSpec()
